@@ -148,6 +148,13 @@ pub struct Kernel {
     /// Monotonic TCP initial-sequence-number source. Deterministic by
     /// design — real kernels randomize.
     tcp_isn: u32,
+    /// 4-tuples of connections that completed a graceful close and were
+    /// removed, with the number of egress rounds the record still lives.
+    /// Stands in for TIME_WAIT: a FIN that the peer retransmits because
+    /// our last ACK was lost is acknowledged again instead of being
+    /// answered with RST (which would abort a peer that may still hold
+    /// unread data).
+    time_wait: Vec<(SocketAddr, SocketAddr, u32)>,
 }
 
 impl Kernel {
@@ -170,7 +177,33 @@ impl Kernel {
             retx_max: cfg.retx_max,
             outbound: VecDeque::new(),
             tcp_isn: 0x0100_0000,
+            time_wait: Vec::new(),
         }
+    }
+
+    /// Remove a socket for good. A connection that went through a complete
+    /// graceful close leaves a TIME_WAIT record behind for as long as the
+    /// peer could still be retransmitting its FIN.
+    pub(crate) fn remove_socket(&mut self, fd: Fd) {
+        if let Some((local, remote)) = tcp::time_wait_key(self, fd) {
+            let rounds = self.retx_threshold.saturating_mul(self.retx_max + 1);
+            self.time_wait.push((local, remote, rounds));
+        }
+        self.sockets.remove(fd);
+    }
+
+    pub(crate) fn in_time_wait(&self, local: SocketAddr, remote: SocketAddr) -> bool {
+        self.time_wait
+            .iter()
+            .any(|(l, r, _)| *l == local && *r == remote)
+    }
+
+    /// One egress round has passed.
+    pub(crate) fn age_time_wait(&mut self) {
+        self.time_wait.retain_mut(|(_, _, rounds)| {
+            *rounds = rounds.saturating_sub(1);
+            *rounds > 0
+        });
     }
 
     /// Create a new socket in this kernel's socket table.
@@ -198,7 +231,7 @@ impl Kernel {
     /// Idempotent on an already-closed fd.
     pub fn close(&mut self, fd: Fd) {
         if tcp::on_close(self, fd) {
-            self.sockets.remove(fd);
+            self.remove_socket(fd);
         }
         // else: lingering — `reap_closed` at the end of each egress
         // pass will clean up once the TCP state reaches `Closed`.
